@@ -10251,7 +10251,7 @@ class Parser:
         limit = self._parse_limit()
         offset = self._parse_offset()
         if limit:
-            curr_limit = query.args.get("limit", limit)
+            curr_limit = query.args.get("limit") or limit
             if curr_limit.expression.to_py() >= limit.expression.to_py():
                 query.limit(limit, copy=False)
         if offset:
